@@ -642,9 +642,13 @@ func (tf *transformer) replaceAsmNames(buf *bytes.Buffer, remaining []byte) {
 				}
 			}
 			if lpkg.ToObfuscate {
-				// Note that we don't need to worry about asmSlash here,
-				// because our obfuscated import paths contain no slashes right now.
-				buf.WriteString(lpkg.obfuscatedImportPath())
+				// Hashed import paths contain no slashes or periods, but some
+				// obfuscated packages keep their import path, like sync/atomic;
+				// those must be written the way the assembler spells them.
+				newPath := lpkg.obfuscatedImportPath()
+				newPath = strings.ReplaceAll(newPath, string(goPeriod), string(asmPeriod))
+				newPath = strings.ReplaceAll(newPath, string(goSlash), string(asmSlash))
+				buf.WriteString(newPath)
 			} else {
 				buf.WriteString(asmPkgPath)
 			}
